@@ -1603,3 +1603,6 @@ for _i in (1, 2, 3, 4, 5, 6, 7, 8, 10, 11, 12, 13, 14, 15, 16, 17, 18, 19, 20):
 for _i in (1, 2, 3, 4, 5, 6, 7, 8, 10, 11, 12, 13, 14, 15, 16, 17, 18, 19, 20):
     VARIANTS.append(dict(id="logic-spellings-c%02d" % _i, prop="C%02d" % _i, expect="silent", rule=None, edits=[("@logic_spellings",)],
                          what="De Morgan on every two-way and / or test, `is not` / `not in` / `!=` as `not ... is / in / ==`, everywhere"))
+for _i in (1, 2, 3, 4, 5, 6, 7, 8, 10, 11, 12, 13, 14, 15, 16, 17, 18, 19, 20):
+    VARIANTS.append(dict(id="local-aliases-c%02d" % _i, prop="C%02d" % _i, expect="undecided", rule=None, edits=[("@local_aliases",)],
+                         what="read-only attributes of self read once into locals in every method, len(M) -> M.shape[0] for matrix parameters, zeros_like(X) -> zeros(X.shape, dtype=X.dtype): accepted or undecided, never an alarm"))
